@@ -30,6 +30,7 @@ func (s Script) String() string { return scriptNames[s] }
 // Inv is one recorded node invocation.
 type Inv struct {
 	Node    string
+	Tag     string
 	In      *el.Event
 	InType  el.EventType
 	InPay   any
@@ -51,7 +52,10 @@ type Log struct {
 }
 
 //go:norace
-func (l *Log) call(node string, e *el.Event) int {
+func (l *Log) call(node string, e *el.Event) int { return l.callTag(node, "", e) }
+
+//go:norace
+func (l *Log) callTag(node, tag string, e *el.Event) int {
 	if l.n >= len(l.invs) {
 		l.over = true
 		return -1
@@ -60,7 +64,7 @@ func (l *Log) call(node string, e *el.Event) int {
 	l.n++
 	l.seq++
 	inv := &l.invs[i]
-	inv.Node, inv.In, inv.CallSeq = node, e, l.seq
+	inv.Node, inv.Tag, inv.In, inv.CallSeq = node, tag, e, l.seq
 	if e != nil {
 		inv.InType, inv.InPay = e.Type, e.Payload
 		inv.InFmtOK = e.Formatted != nil && len(e.Formatted) == 0
@@ -107,13 +111,20 @@ type Node struct {
 	OnClose    func(ctx context.Context)
 	OnReopen   func()
 	NoCloser   bool
+	ProbeTag   string // what probe Sends report for this object
+	DumpName   string // canonical name used in state dumps and probe logs (set by the harness)
 	serial     int
 }
 
-func (n *Node) VerifName() string { return "node:" + n.Name }
+func (n *Node) VerifName() string {
+	if n.DumpName != "" {
+		return "node:" + n.DumpName
+	}
+	return "node:" + n.Name
+}
 
 func (n *Node) Process(ctx context.Context, e *el.Event) (*el.Event, error) {
-	i := n.L.call(n.Name, e)
+	i := n.L.callTag(n.Name, n.probeTag(), e)
 	if n.OnProcess != nil {
 		n.OnProcess(ctx, e)
 	}
@@ -134,6 +145,9 @@ func (n *Node) Process(ctx context.Context, e *el.Event) (*el.Event, error) {
 	n.L.ret(i, out, err)
 	return out, err
 }
+
+//go:norace
+func (n *Node) probeTag() string { return n.ProbeTag }
 
 //go:norace
 func (n *Node) nextSerial() int { n.serial++; return n.serial }
